@@ -980,7 +980,7 @@ pub fn property() -> Property {
     Property {
         id: "C07",
         level: "exploration",
-        rule: "Part A (agenda, agendaExh*): sequences of 5..25 operations {add_activation (salience from a tie-prone small domain, extremes and arbitrary i32; agenda group MAIN/g1/g2; activation group none/ag1/ag2; no-loop fixed per rule; explicit creation instants incl. equal instants and created-earlier-added-later), get_next_activation (+mark_rule_fired with p=3/4), set_focus, reset_fired_flags, clear} on AdvancedAgenda; agendaExh<n> enumerates all sequences of length n over a 17-operation alphabet. Oracle: model of pending activations and fired sets written from the statement, judged at every pop (group of the result = focused group, result was pending, not excluded by no-loop / fired activation group, no eligible pending activation of that group with higher salience or equal salience and earlier creation; None only if the focused group has no eligible pending activation; focus only leaves a group without eligible activations). Activations that were passed over while excluded are 'undetermined' and never make the oracle demand anything. Non-trivial: a pop with >=3 pending activations in the group and a salience tie, or a pop that skips an excluded activation, or a focus change between add and pop; distinct by (rule flags, operation sequence). Part B (termIncr/termTyped/termUl): rule sets of 1..4 rules over facts T.x, T.flag with conditions {UlTerminal, x==x, x>=0, !(x<0), x<k, x>=k, flag==b}, priorities incl. i32 extremes, no_loop arbitrary, actions {nop, x+=1, x:=0, set flag, remove another rule's _fired marker, InsertFact, Update, RetractByType, ActivateAgendaGroup}; fire_all is called once or twice. Oracle: fire_all returns without panic, the number of firings is within the engine's bound (1000 activations incremental, 100 rounds x rules ReteUlEngine, typed: no declared bound -> must return within 20000 firings); each action burns fuel and unwinds out of fire_all when the bound is exceeded, other hangs are caught by the watchdog. Non-trivial: a rule without no-loop actually fired; distinct by (engine, rule set). Creation instants of Part A are spread on one of four scales by case (1 us, 1 ms, 0.3 s, 0.7 s steps) after the agenda was created; order and ties as generated.",
+        rule: "Part A (agenda, agendaExh*): sequences of 5..25 operations {add_activation (salience from a tie-prone small domain, extremes and arbitrary i32; agenda group MAIN/g1/g2; activation group none/ag1/ag2; no-loop fixed per rule; explicit creation instants incl. equal instants and created-earlier-added-later), get_next_activation (+mark_rule_fired with p=3/4), set_focus, reset_fired_flags, clear} on AdvancedAgenda; agendaExh<n> enumerates all sequences of length n over a 17-operation alphabet. Oracle: model of pending activations and fired sets written from the statement, judged at every pop (group of the result = focused group, result was pending, not excluded by no-loop / fired activation group, no eligible pending activation of that group with higher salience or equal salience and earlier creation; None only if the focused group has no eligible pending activation; focus only leaves a group without eligible activations). Activations that were passed over while excluded are 'undetermined' and never make the oracle demand anything. Non-trivial: a pop with >=3 pending activations in the group and a salience tie, or a pop that skips an excluded activation, or a focus change between add and pop; distinct by (rule flags, operation sequence). Part B (termIncr/termTyped/termUl): rule sets of 1..4 rules over facts T.x, T.flag with conditions {UlTerminal, x==x, x>=0, !(x<0), x<k, x>=k, flag==b}, priorities incl. i32 extremes, no_loop arbitrary, actions {nop, x+=1, x:=0, set flag, remove another rule's _fired marker, InsertFact, Update, RetractByType, ActivateAgendaGroup}; fire_all is called once or twice. Oracle: fire_all returns without panic, the number of firings is within the engine's bound (1000 activations incremental, 100 rounds x rules ReteUlEngine, typed: no declared bound -> must return within 20000 firings); each action burns fuel and unwinds out of fire_all when the bound is exceeded, other hangs are caught by the watchdog. Non-trivial: a rule without no-loop actually fired; distinct by (engine, rule set). Creation instants of Part A are spread on one of four scales by case (1 us, 1 ms, 0.3 s, 0.7 s steps) after the agenda was created; order and ties as generated. The object under test is built with new() or with default() in turn (by a hash of the case's data, no draw).",
         assumptions: vec![
             "lock-on-active, auto-focus and ruleflow groups are left at their defaults: the statement says nothing about them".into(),
             "conflict resolution strategy is the default (Salience); the statement describes no other".into(),
